@@ -1,0 +1,7 @@
+//go:build !verif
+
+package main
+
+// verifEvent is an instrumentation point used by external runtime monitors.
+// Without the "verif" build tag it compiles to nothing.
+func verifEvent(kind, subject string, a, b int) {}
